@@ -33,7 +33,7 @@ REQUIRED_COUNTERS = ["calls.raised", "mutants.confirmed", "retries.raised"]
 MIN_EVALS = 1500
 MIN_NONTRIVIAL = 800
 
-BY_CONSTRUCTION = {"foreign-signal", "orphan-signal", "foreign-bundle", "foreign-instance-ref", "self-cycle", "two-cycle",
+BY_CONSTRUCTION = {"foreign-signal", "orphan-signal", "foreign-signal-nested", "orphan-signal-nested", "orphan-member", "foreign-bundle", "foreign-instance-ref", "self-cycle", "two-cycle",
                    "unnamed-module", "name-clash", "displaced-signal", "ext-name-clash"}
 
 
@@ -119,6 +119,15 @@ def mutations(design, rng, limit_per_class):
             add("foreign-signal", site, mutated(["fsig", "__other__", "os%d" % (w or 1)]))
             add("orphan-signal", site, mutated(["orphan", w or 1]))
             add("foreign-instance-ref", site, mutated(["pref_foreign", "__other__", "oi", "z"]) if (w or 1) == 1 else None)
+            if w and w >= 2:
+                # ... the unowned / foreign signal as ONE part of a concatenation (last, first, middle), the rest being what was there
+                lo, hi = ["slice", e, [0, w - 1, None]], ["slice", e, [1, w, None]]
+                add("orphan-signal-nested", site, mutated(["cat", lo, ["orphan", 1]]))
+                add("orphan-signal-nested", site, mutated(["cat", ["orphan", 1], hi]))
+                add("foreign-signal-nested", site, mutated(["cat", lo, ["fsig", "__other__", "os1"]]))
+                add("foreign-signal-nested", site, mutated(["cat", ["slice", e, 0], ["cat", ["fsig", "__other__", "os1"]]] + ([["slice", e, [2, w, None]]] if w > 2 else [])))
+                if w >= 3:
+                    add("orphan-signal-nested", site, mutated(["cat", ["slice", e, 0], ["orphan", 1], ["slice", e, [2, w, None]]]))
         if pkind == "scalar" and e[0] == "sig" and depth <= 1:
             # the signal is displaced AFTER it was connected: its name is re-used for a new, wider signal
             w0 = width_of(design, m, e)
@@ -152,6 +161,14 @@ def mutations(design, rng, limit_per_class):
                 e3 = copy.deepcopy(e)
                 e3[1].pop(k)
                 add("missing-member", site, mutated(e3), "missing-member")
+                # an unowned signal as the LAST member (the first ones being fine)
+                kl = sorted(e[1])[-1]
+                subl = e[1][kl]
+                wl = width_of(design, m, subl) if subl[0] not in ("bun", "anon", "nc") else None
+                if wl and list(e[1])[-1] == kl and len(e[1]) >= 2:
+                    e8 = copy.deepcopy(e)
+                    e8[1][kl] = ["orphan", wl]
+                    add("orphan-member", site, mutated(e8))
                 e4 = copy.deepcopy(e)
                 e4[1]["zzextra"] = ["sig", "zzx1"]
                 add("extra-member", site, mutated(e4, extra_sigs=[["zzx1", 1]]), "extra-connection")
